@@ -39,7 +39,7 @@ func any(ev map[string]int, ks ...string) bool {
 }
 
 var profMap = &Profile{
-	Name: "C01-map", MinOps: 1, MaxOps: 60, NColls: 3, MemPct: 25, BigKeys: true, BigVals: true, EndOnly: 25,
+	Name: "C01-map", MinOps: 1, MaxOps: 60, NColls: 3, MemPct: 25, BigKeys: true, BigVals: true, EndOnly: 25, Bulk: 2,
 	Kinds: []wk{{OpSet, 30}, {OpSetR, 6}, {OpDel, 14}, {OpGet, 8}, {OpGetItem, 6}, {OpExist, 3}, {OpMin, 3}, {OpMax, 3},
 		{OpTotals, 3}, {OpBadSet, 3}, {OpFlush, 8}, {OpEvict, 7}, {OpReopen, 5}, {OpMisc, 2}},
 }
@@ -132,7 +132,7 @@ func init() {
 			return any(ev, "overwrite_lower", "overwrite_tied") && has(ev, "mut_cache_mut", "delete_present")
 		},
 		Rule: "rapid-generated histories (1-60 ops, <=3 collections) over SetItem/Set/Delete/Get/GetItem/Exist/Min/Max/GetTotals/invalid SetItem/Flush/EvictSomeItems/re-open, file-backed and memory-only; every return value and (in 75% of cases after every op, otherwise at the end) the full contents of every collection are compared with a reference map. Non-trivial = at least one overwrite at tied-or-lower priority AND an effective evict/flush/re-open between two mutations of the same collection AND a delete of a present key; distinct by FNV-64 of the case JSON."})
-	reg(&Spec{Prop: "C02", Profile: profDurable, Opts: RunOpts{Probe: true},
+	reg(&Spec{Prop: "C02", Profile: profDurable, Opts: RunOpts{Probe: true, RevertPoints: true},
 		NonTrivial: func(c *Case, ev map[string]int) bool {
 			return ev["flush_changed"] >= 2 && has(ev, "reopen_with_pending") && ev["reopen"] >= 1 && ev["flush"] >= 2
 		},
@@ -146,12 +146,12 @@ func init() {
 	reg(&Spec{Prop: "C06", Profile: profRange,
 		NonTrivial: func(c *Case, ev map[string]int) bool { return has(ev, "visit_inside_evicted") && ev["visit"] >= 3 },
 		Rule: "contents built by generated histories (all cache states: cached, evicted, never loaded after re-open), comparator in {bytes, reverse, shortlex}; then range queries through all six APIs (VisitItemsAscend/Descend, Ex variants, IterateAscend/Descend) with targets nil/empty/present/absent/below/above, both value modes, early stop; delivered (key,priority,value) sequence == model range, no call after false, Ex depths == true depths (full-scan consistency, binary-tree validity, hook walk). Non-trivial = >=3 items, target strictly inside the key range and at least one item not cached when the visit started."})
-	reg(&Spec{Prop: "C08", Profile: profRevert, Opts: RunOpts{Probe: true},
+	reg(&Spec{Prop: "C08", Profile: profRevert, Opts: RunOpts{Probe: true, RevertPoints: true},
 		NonTrivial: func(c *Case, ev map[string]int) bool {
 			return (ev["flush_changed"] >= 2 && ev["revert"] >= 2) || has(ev, "revert_to_empty", "flush_changed")
 		},
 		Rule: "mutate/Flush/re-open/FlushRevert histories (reverts past the first flush, with unflushed changes pending, right after re-open, on memory-only stores); after each revert: contents == model flush stack after pop, file length == end of that flush's root record (0 if none), a fresh store on a copy of the file agrees; termination by watchdog. Non-trivial = (>=2 state-changing flushes and >=2 reverts) or a revert that reaches the empty store after a state-changing flush."})
-	reg(&Spec{Prop: "C09", Profile: profMonitor, Opts: RunOpts{Monitor: true},
+	reg(&Spec{Prop: "C09", Profile: profMonitor, Opts: RunOpts{Monitor: true, RevertPoints: true},
 		NonTrivial: func(c *Case, ev map[string]int) bool {
 			return ev["flush"] >= 2 && any(ev, "revert", "reopen") && ev["mon_writes"] > 0 && any(ev, "visit_over_evicted", "evict_effective")
 		},
@@ -176,7 +176,7 @@ func init() {
 			return has(ev, "canonical_checked_4plus", "delete_present", "overwrite_higher")
 		},
 		Rule: "histories on <=2 collections (comparators bytes/reverse/shortlex, 70% without lowering overwrites); after every op: keys strictly ascending, reported depths form a binary tree, every cached node's numNodes/numBytes == 1+children / item+children (uncached children read from the file bytes), heap order and - with distinct priorities - depth == the unique treap's depth computed from the model (asserted only while the collection saw no lowering overwrite). Non-trivial = canonical shape checked on >=4 items with >=1 delete and >=1 raising overwrite."})
-	reg(&Spec{Prop: "C14", Profile: profFormat, Opts: RunOpts{Decode: true},
+	reg(&Spec{Prop: "C14", Profile: profFormat, Opts: RunOpts{Decode: true, RevertPoints: true},
 		NonTrivial: func(c *Case, ev map[string]int) bool {
 			return has(ev, "decoded_multi", "emptyval") && ev["flush"] >= 2
 		},
